@@ -38,6 +38,7 @@ EXPLANATION = (
     "neighbour coordinate arrays, neighbour lists filtered inside get_nearest_neighbors, and an adjacency "
     "builder that create_adjacency_matrix delegates to; LAT-1 follows tree_flatten / tree_unflatten "
     "inherited from a base class and *self.<tuple of fields> in the flattened data. "
+    ' LAT-4: a bounds test written as all(0 <= c < n for c, n in zip(coords, shape)) is read as the per-coordinate tests it stands for. A routine written in a form a rule family has no model for (site list built another way, adjacency builder delegating to a generic helper) removes that class from that family with a note in the evidence; the other classes and families are still judged. '
 )
 NOT_DECIDED = (
     "value-dependent graph facts (regularity / irreflexivity for particular side lengths, degree "
